@@ -103,6 +103,21 @@ def discharge(ob, *, timeout_ms=10000, use_cvc5=True, cvc5_timeout_s=20):
         return dict(status="discharged", backend="trivial", seconds=0.0, model=None)
     exprs = list(ob.assumptions) + [z3.Not(goal)]
     quant = has_quantifier(exprs)
+    if quant and ob.must_fail:
+        # vacuity guards (cover / canary) under quantified assumptions: satisfiability of the
+        # quantifier-free part is checked (a contradiction among ground facts is what they look for)
+        s0 = z3.Solver()
+        s0.set("timeout", min(timeout_ms, 5000))
+        for e in exprs:
+            if not has_quantifier([e]):
+                s0.add(e)
+        r0 = s0.check()
+        if r0 == z3.sat:
+            return dict(status="refuted", backend="z3", seconds=time.time() - t0, model=None,
+                        reason="quantifier-free part satisfiable")
+        if r0 == z3.unsat:
+            return dict(status="discharged", backend="z3", seconds=time.time() - t0, model=None)
+        return dict(status="undecided", backend="z3", seconds=time.time() - t0, model=None, reason="cover: unknown")
     s = z3.Solver()
     if quant:
         s.set("auto_config", False)
@@ -152,3 +167,87 @@ def discharge(ob, *, timeout_ms=10000, use_cvc5=True, cvc5_timeout_s=20):
         except Exception as e:  # pragma: no cover
             reason += f"; cvc5 error {e}"
     return dict(status="undecided", backend="z3+cvc5", seconds=time.time() - t0, model=None, reason=reason)
+
+
+# ---------------------------------------------------------------------------------------------
+# bounded counter-model search for obligations with quantifiers
+#
+# z3 answers `unknown` when a quantified VC is satisfiable.  To obtain a candidate counterexample the
+# VC is re-solved with every quantifier expanded over a small integer range and all list lengths
+# bounded.  Expansion weakens the assumptions, so a model found this way is only a *candidate*: it
+# is concretised into real objects and replayed natively; it never counts by itself.
+
+
+def expand_quantifiers(e, lo, hi, memo=None):
+    if memo is None:
+        memo = {}
+    k = e.get_id()
+    if k in memo:
+        return memo[k]
+    if z3.is_quantifier(e):
+        n = e.num_vars()
+        if any(e.var_sort(i) != z3.IntSort() for i in range(n)) or n > 2:
+            raise ValueError("unsupported quantifier")
+        body = e.body()
+        insts = []
+        import itertools
+
+        for vals in itertools.product(range(lo, hi + 1), repeat=n):
+            # de Bruijn: var 0 is the last bound variable
+            inst = z3.substitute_vars(body, *[z3.IntVal(v) for v in reversed(vals)])
+            insts.append(expand_quantifiers(inst, lo, hi, memo))
+        r = z3.And(*insts) if e.is_forall() else z3.Or(*insts)
+    elif z3.is_app(e) and e.num_args() > 0:
+        kids = [expand_quantifiers(c, lo, hi, memo) for c in e.children()]
+        if all(a.get_id() == b.get_id() for a, b in zip(kids, e.children())):
+            r = e
+        else:
+            r = e.decl()(*kids)
+    else:
+        r = e
+    memo[k] = r
+    return r
+
+
+def _len_terms(exprs):
+    out = {}
+    seen = set()
+
+    def walk(t):
+        if t.get_id() in seen:
+            return
+        seen.add(t.get_id())
+        if z3.is_app(t) and t.decl().kind() == z3.Z3_OP_SELECT and t.sort() == z3.IntSort():
+            arr = t.arg(0)
+            base = arr
+            while z3.is_app(base) and base.decl().kind() == z3.Z3_OP_STORE:
+                base = base.arg(0)
+            if z3.is_const(base) and str(base).startswith("H.len"):
+                out[t.get_id()] = t
+        for c in t.children():
+            walk(c)
+
+    for e in exprs:
+        walk(e)
+    return list(out.values())
+
+
+def bounded_countermodel(ob, K=3, timeout_ms=20000):
+    """Candidate model of the negated obligation with quantifiers expanded over [-1, K+1] and list
+    lengths <= K.  Returns (z3 model | None, reason)."""
+    exprs = list(ob.assumptions) + [z3.Not(ob.goal)]
+    try:
+        memo = {}
+        ex = [expand_quantifiers(e, -1, K + 1, memo) for e in exprs]
+    except ValueError as e:
+        return None, str(e)
+    s = z3.Solver()
+    s.set("timeout", timeout_ms)
+    for e in ex:
+        s.add(e)
+    for t in _len_terms(ex):
+        s.add(t >= 0, t <= K)
+    r = s.check()
+    if r == z3.sat:
+        return s.model(), "sat (quantifiers expanded, lengths <= %d)" % K
+    return None, str(r)
